@@ -655,7 +655,12 @@ fn match_with_rule<'src>(
                     {
                         let mut result = vec![];
 
-                        // Try both with and without lookahead character
+                        // Try both with and without lookahead character;
+                        // when both read the same text as the argument, the rest
+                        // of the pattern is only matched once (otherwise the
+                        // work doubles with every parameter of the rule)
+                        let mut seen_ends = Vec::new();
+
                         for enable_lookahead in [false, true]
                         {
                             result.extend(
@@ -666,6 +671,7 @@ fn match_with_rule<'src>(
                                     needs_consume_all_tokens,
                                     part_index,
                                     enable_lookahead,
+                                    &mut seen_ends,
                                     active,
                                     match_so_far.clone()));
                         }
@@ -718,6 +724,7 @@ fn match_with_expr<'src>(
     needs_consume_all_tokens: bool,
     at_pattern_part: usize,
     enable_lookahead: bool,
+    seen_ends: &mut Vec<usize>,
     active: &mut ActiveNestedRuledefs,
     mut match_so_far: InstructionMatch)
     -> WorkingMatches<'src>
@@ -743,6 +750,14 @@ fn match_with_expr<'src>(
             None => return vec![],
         }
     };
+
+    // The same argument text was already tried
+    if seen_ends.contains(&walker_end)
+    {
+        return vec![];
+    }
+
+    seen_ends.push(walker_end);
 
     let span = walker.get_span(
         walker_start,
